@@ -97,6 +97,18 @@ class BuiltinsMixin(object):
             self.inconclusive('expression ' + node.__class__.__name__, node)
         return m(node, fr, path)
 
+    def eval_one(self, node, fr, path):
+        """value of an expression that must have exactly one outcome on
+        `path` (defaults, slice bounds, keys): anything else is outside the
+        interpreted fragment"""
+        res = self.eval(node, fr, path)
+        if len(res) != 1 or res[0][0] is not path or \
+                isinstance(res[0][1], Raise):
+            self.inconclusive('expression with several outcomes where one '
+                              'is expected: %s' % ast.unparse(node)[:60],
+                              node)
+        return res[0][1]
+
     def eval_seq(self, nodes, fr, path):
         """-> list[(path, [values] | Raise)]"""
         cur = [(path, [])]
@@ -916,8 +928,7 @@ class BuiltinsMixin(object):
                 # class level data attribute: evaluate in the owner's module
                 key = ('classattr', owner.qn, name)
                 fr = self.module_frame(owner.module, path)
-                res = self.eval(n, fr, path)
-                val = res[0][1]
+                val = self.eval_one(n, fr, path)
                 if isinstance(val, Obj):
                     # class attributes are shared mutable state
                     return App('classattr', CRef(owner), Const(name),
@@ -953,7 +964,7 @@ class BuiltinsMixin(object):
             if n is None:
                 vals.append(Const(None))
             else:
-                vals.append(self.eval(n, fr, path)[0][1])
+                vals.append(self.eval_one(n, fr, path))
         return [(path, App('slice', *vals))]
 
     def get_item(self, base, idx, path, node):
@@ -1128,7 +1139,7 @@ class BuiltinsMixin(object):
     def _comp_gen(self, gens, i, fr, path, out, elt, key, g_acc, c_acc):
         if i == len(gens):
             if key is not None:
-                kv = self.eval(key, fr, path)[0][1]
+                kv = self.eval_one(key, fr, path)
             else:
                 kv = None
             res = []
@@ -1157,23 +1168,8 @@ class BuiltinsMixin(object):
                             nxt.append((q, s))
                             continue
                         self.assign(g.target, item, fr, q, g.target)
-                        conds = list(c_acc)
-                        skip = False
-                        for c in g.ifs:
-                            cv = self.eval(c, fr, q)[0][1]
-                            t = self.truth(cv, q)
-                            cv = self.snapshot(cv, q)
-                            if t is False:
-                                skip = True
-                                break
-                            if t is None:
-                                conds.append((cv, True))
-                        if skip:
-                            nxt.append((q, None))
-                            continue
-                        nxt.extend(self._comp_gen(gens, i + 1, fr, q, out,
-                                                  elt, key, g_acc,
-                                                  tuple(conds)))
+                        nxt.extend(self._comp_filtered(
+                            g, gens, i, fr, q, out, elt, key, g_acc, c_acc))
                     cur = nxt
                 res.extend(cur)
             else:
@@ -1181,23 +1177,78 @@ class BuiltinsMixin(object):
                 its = self.snapshot(it, p)
                 var = p.fresh('e', et, meta=('elem', its))
                 self.assign(g.target, var, fr, p, g.target)
-                conds = list(c_acc)
-                skip = False
-                for c in g.ifs:
-                    cv = self.eval(c, fr, p)[0][1]
-                    t = self.truth(cv, p)
-                    cv = self.snapshot(cv, p)
-                    if t is False:
-                        skip = True
-                        break
-                    if t is None:
-                        conds.append((cv, True))
-                if skip:
-                    res.append((p, None))
+                res.extend(self._comp_filtered(
+                    g, gens, i, fr, p, out, elt, key, g_acc + ((var, its),),
+                    c_acc))
+        return res
+
+    def _comp_ifs(self, ifs, k, fr, q, conds, base):
+        """the `if` clauses of one generator, in order -> list of
+        (path, conds | Raise) for the outcomes that are not surely false;
+        conditions assumed while evaluating a clause (a forking callee) are
+        part of the element's condition"""
+        if k == len(ifs):
+            extra = [(self.snapshot_deep(c, q), pol)
+                     for (c, pol) in q.pc[base:]]
+            return [(q, tuple(conds) + tuple(extra))]
+        out = []
+        for (q2, cv) in self.eval(ifs[k], fr, q):
+            if isinstance(cv, Raise):
+                out.append((q2, cv))
+                continue
+            t = self.truth(cv, q2)
+            if t is False:
+                continue
+            cs = list(conds)
+            if t is None:
+                cs.append((self.snapshot_deep(cv, q2), True))
+            out.extend(self._comp_ifs(ifs, k + 1, fr, q2, cs, base))
+        return out
+
+    def _comp_filtered(self, g, gens, i, fr, p, out, elt, key, g_acc, c_acc):
+        if not g.ifs:
+            return self._comp_gen(gens, i + 1, fr, p, out, elt, key, g_acc,
+                                  tuple(c_acc))
+        base = len(p.pc)
+        outs = self._comp_ifs(g.ifs, 0, fr, p, list(c_acc), base)
+        if len(outs) <= 1 and all(q is p for (q, _) in outs):
+            del p.pc[base:]
+            if not outs:
+                return [(p, None)]
+            if isinstance(outs[0][1], Raise):
+                return outs
+            return self._comp_gen(gens, i + 1, fr, p, out, elt, key, g_acc,
+                                  outs[0][1])
+        # the condition forked (a callee with several outcomes): run the
+        # rest on each outcome and merge the contributed parts into p
+        known = list(p.heap[out.oid].parts)
+        heap_ids = set(p.heap.keys())
+        merged = []
+        res = []
+        for (q, cs) in outs:
+            if isinstance(cs, Raise):
+                res.append((q, cs))
+                continue
+            for (q2, s2) in self._comp_gen(gens, i + 1, fr, q, out, elt, key,
+                                           g_acc, cs):
+                if isinstance(s2, Raise):
+                    res.append((q2, s2))
                     continue
-                res.extend(self._comp_gen(gens, i + 1, fr, p, out, elt, key,
-                                          g_acc + ((var, its),),
-                                          tuple(conds)))
+                for part in q2.heap[out.oid].parts:
+                    if part not in known and part not in merged:
+                        merged.append(part)
+        del p.pc[base:]
+        for part in merged:
+            for x in walk(part.val):
+                if isinstance(x, Obj) and x.oid not in heap_ids:
+                    self.inconclusive('comprehension element allocates '
+                                      'under a forking condition: %r in %r'
+                                      % (x, part), elt)
+        mine = p.heap[out.oid].parts
+        for part in merged:
+            if part not in mine:
+                mine.append(part)
+        res.append((p, None))
         return res
 
     def ex_ListComp(self, node, fr, path):
